@@ -669,6 +669,49 @@ func ruleR3b(c *Ctx) {
 	c.check(n >= 2, "R3b", "stores", token.NoPos, fmt.Sprintf("%d stores of a dispatch state analysed", n))
 }
 
+// R7: the buffer length only matters relative to a position. In a function that takes (buf, offs), a branch that
+// compares len(buf) with a constant alone (no position term) measures from byte 0 of the buffer, not from where this
+// message / this call starts: it behaves differently for offs > 0 and for a resumed call on a grown buffer.
+func ruleR7(c *Ctx) {
+	e := newErrAnalysis(c.Prog)
+	n, nabs := 0, 0
+	for _, f := range streamingFuncs(c, e) {
+		bp := bufParam(f)
+		if bp == nil {
+			continue
+		}
+		fk := ssaKey(f)
+		lenKey := "len(param:" + bp.Name() + ")"
+		cnt := 0
+		for _, b := range f.Blocks {
+			iff, ok := b.Instrs[len(b.Instrs)-1].(*ssa.If)
+			if !ok {
+				continue
+			}
+			env := newLinEnv(linOpts{})
+			for _, fa := range env.condFacts(iff.Cond, true) {
+				if fa.L.T[lenKey] == 0 {
+					continue
+				}
+				n++
+				others := 0
+				for k, cf := range fa.L.T {
+					if k != lenKey && cf != 0 {
+						others++
+					}
+				}
+				if others == 0 {
+					nabs++
+					cnt++
+					c.fail("R7", fmt.Sprintf("%s:absolute-length-test#%d", fk, cnt), iff.Cond.Pos(), "this branch compares len(buf) with a constant only ("+env.pretty(fa.L)+"<=0): the bytes available to this call are len(buf) minus its position, so the test gives a different answer when the message starts at offs > 0 or when the call is a resume on a grown buffer")
+				}
+				break
+			}
+		}
+	}
+	c.check(n >= 20, "R7", "length-tests", token.NoPos, fmt.Sprintf("%d branches on len(buf) in resumable functions inspected, %d without a position term (frozen minimum 20)", n, nabs))
+}
+
 // R5: slot persistence (C13-K2 keep-on-more-bytes).
 func ruleR5(c *Ctx) {
 	t := &Ctx{Prog: c.Prog, Prop: c.Prop}
@@ -705,6 +748,7 @@ func init() {
 		{"R2", "verdict <-> typestate on the extracted automata and per-state path enumerations: no more-bytes exit leaves the object in its finished/error state, every success exit does leave it finished (or in the documented next-value state), and a finished object returns (offs, 0) at once", ruleR2},
 		{"R3", "dispatch-table agreement (writer = reader) for the 8 typed headers, and every state a more-bytes exit can leave in the header object has a re-entry case", ruleR3},
 		{"R3b", "the dispatch state of the header-line parser (the state its caller compares with right after calling the typed-header dispatcher closure) is never left in the object undispatched: from every store of it, every path to a non-error return first calls the dispatcher or overwrites the state", ruleR3b},
+		{"R7", "the buffer length is only ever tested relative to a position: no branch in a resumable function compares len(buf) with a constant alone — such a test measures from byte 0, not from the continuation offset, and answers differently for offs > 0 or a resumed call", ruleR7},
 		{"R4", "the verdict of every call to a callee that may report more-bytes is returned or tested, never discarded", ruleR4},
 		{"R6", "read-back values that must not depend on how the input was cut: the raw-message / buffer views use the start offset saved on the first call (never the current call's offset), and the header counters advance exactly on first entry of a header, not on resume", ruleR6},
 		{"R5", "slot persistence of the list parsers: no reset of the in-progress slot on more-bytes paths or before the sub-parser is re-entered; reset before the next element", ruleR5},
